@@ -76,6 +76,27 @@ def make(cases_path, files_path, seed, fmts=('bin', 'xml')):
                 out.write(json.dumps({'id': f'{rec["n"]}.bin.{order}', 'origin': {'label': rec['label'], 'order': order}, 'fmt': 'bin', 'bytes_hex': data.hex(),
                                       'expected': expected, 'tags': ['r-bin', order, leg['name']], 'sig': f':r-bin:{leg["name"]}' + (f'={leg["value"]["v"]}' if leg['value']['t'] == 'Enum' else '')}) + '\n')
                 n += 1
+                # ---- legacy only, next to a chunk for the TARGET property that the document says must be skipped (it ends
+                #      after its name, or its value type id is unknown): "skipped without affecting any other property"
+                tw = rec.get('target_wire_name')
+                if not new and tw and tw != leg['name']:
+                    for kind in ('no-type-byte', 'unknown-type-id'):
+                        for where in ('skipped-first', 'skipped-last'):
+                            m2 = json.loads(json.dumps(model))
+                            li = next(i for i, c in enumerate(m2['chunks']) if c['name'] == 'PROP' and c['body']['name'] == leg['name'])
+                            body = {'class_id': m2['chunks'][li]['body']['class_id'], 'name': tw, 'type_id': None, 'values': None, 'trailing': 0}
+                            if kind == 'unknown-type-id':
+                                body['type_id'] = rng.choice([0x1d, 0x23, 0x7f, 0xff])
+                                body['raw_values'] = bytes(rng.randrange(256) for _ in range(rng.randrange(0, 24))).hex()
+                            ch = {'name': 'PROP', 'compression': rng.choice(['none', 'lz4', 'zstd']), 'compressed_len': 0, 'len': 0, 'reserved': 0, 'body': body}
+                            m2['chunks'].insert(li if where == 'skipped-first' else li + 1, ch)
+                            try:
+                                data2 = refbin.encode(m2, variant=ENC_VARIANT)
+                            except refbin.RefError:
+                                continue
+                            out.write(json.dumps({'id': f'{rec["n"]}.bin.{kind}.{where}', 'origin': {'label': rec['label'], 'order': where, 'skipped': kind}, 'fmt': 'bin', 'bytes_hex': data2.hex(),
+                                                  'expected': expected, 'tags': ['r-bin', where, 'skip.' + kind, leg['name']], 'sig': f':r-bin:{leg["name"]}' + (f'={leg["value"]["v"]}' if leg['value']['t'] == 'Enum' else '')}) + '\n')
+                            n += 1
             # ---- binary: another class that carries the TARGET property (explicitly) earlier in the same file;
             #      what the reader remembers about one class must not change how the next class's legacy chunk is read
             other = rec.get('other')
